@@ -254,12 +254,12 @@ instance (σ : State) (es : List Edge) : Decidable (GuardsOKAt σ es) := by
     | _ :: _ :: _ => isTrue (fun e he => by cases he)
   exact inferInstance
 
-/-- every function's every block: guards fine in every state -/
-def GuardsOK (P : Program) : Prop :=
-  ∀ f ∈ P.functions, ∀ b ∈ f.cfg.blocks, ∀ σ : State, GuardsOKAt σ (f.cfg.edgesOut b.index)
+/-- every function's every block: guards fine in every state that is typed against `Γ` -/
+def GuardsOK (Γ : Ctx) (P : Program) : Prop :=
+  ∀ f ∈ P.functions, ∀ b ∈ f.cfg.blocks, ∀ σ : State, StateTyped Γ σ → GuardsOKAt σ (f.cfg.edgesOut b.index)
 
-def GuardsExhaustive (P : Program) : Prop :=
-  ∀ f ∈ P.functions, ∀ b ∈ f.cfg.blocks, ∀ σ : State,
+def GuardsExhaustive (Γ : Ctx) (P : Program) : Prop :=
+  ∀ f ∈ P.functions, ∀ b ∈ f.cfg.blocks, ∀ σ : State, StateTyped Γ σ →
     let es := f.cfg.edgesOut b.index
     es ≠ [] → (∀ e ∈ es, guardTrue σ e.cond ∨ guardFalse σ e.cond) → ∃ e ∈ es, guardTrue σ e.cond
 
